@@ -101,6 +101,7 @@ class Translator:
         self.consts = consts or {}  # dotted name -> (gallina term, type)
         self.funcs = funcs or {}  # dotted callee name -> (gallina name, [param types], return type, effectful, takes_self)
         self.out = []
+        self.nbinds = 0  # number of monadic binds / raises emitted so far (purity test for comprehensions)
 
     def fresh(self, base):
         self.n += 1
@@ -187,7 +188,71 @@ class Translator:
             )
         if isinstance(e, ast.Call):
             return self.call(e, cx, k)
+        if isinstance(e, ast.ListComp):
+            return self.listcomp(e, cx, k)
         raise Unsupported(e)
+
+    def static_isinstance(self, e, cx):
+        """isinstance(<local>, <builtin type>) decided from the static type of the local; None if not of that form."""
+        if not (isinstance(e, ast.Call) and isinstance(e.func, ast.Name) and e.func.id == "isinstance" and len(e.args) == 2
+                and isinstance(e.args[0], ast.Name) and isinstance(e.args[1], ast.Name) and e.args[0].id in cx.vars):
+            return None
+        t = cx.vars[e.args[0].id][1]
+        py = {"int": "int", "bool": "bool", "bytes": "bytes", "str": "str", "list": "list", "dict": "dict", "none": None}.get(t[0], "?")
+        if py == "?" or e.args[1].id not in ("int", "bool", "bytes", "str", "list", "dict", "float", "tuple"):
+            return None
+        if e.args[1].id == "int" and py == "bool":
+            return True  # bool is a subclass of int
+        return py == e.args[1].id
+
+    def iter_range(self, it, cx, k):
+        """range(a[, b[, s]]) as an iterable: k(term of type list Z)."""
+        if not (isinstance(it, ast.Call) and isinstance(it.func, ast.Name) and it.func.id == "range" and 1 <= len(it.args) <= 3 and not it.keywords):
+            return None
+        a = [ast.Constant(value=0), it.args[0], ast.Constant(value=1)] if len(it.args) == 1 else list(it.args) + [ast.Constant(value=1)] * (3 - len(it.args))
+
+        def done(xs):
+            for _, t in xs:
+                self._need(t, INT, it)
+            return self.bindres("(range_step " + " ".join(x for x, _ in xs) + ")", LIST(INT), "r", k)
+
+        return self.args(a, cx, done)
+
+    def listcomp(self, e, cx, k):
+        """[elt for x in xs]  (one generator, no condition): map, or mapM when elt can raise."""
+        if len(e.generators) != 1:
+            raise Unsupported(e, "comprehension with several generators")
+        g = e.generators[0]
+        if g.ifs or g.is_async or not isinstance(g.target, ast.Name):
+            raise Unsupported(e, "comprehension shape")
+
+        def with_iter(xs, txs):
+            if txs == BYTES:
+                et = INT
+            elif txs[0] == "list":
+                et = txs[1]
+            else:
+                raise Unsupported(e, f"comprehension over {txs}")
+            bcx = cx.copy()
+            v = self.fresh(g.target.id)
+            bcx.vars[g.target.id] = (v, et)
+            res = {}
+            before = self.nbinds
+
+            def kelt(a, ta):
+                res["t"] = ta
+                return "\0" + a + "\1"
+
+            body = self.expr(e.elt, bcx, kelt)
+            if self.nbinds == before and body.startswith("\0") and body.endswith("\1"):
+                return k(f"(map (fun {v} => {body[1:-1]}) {xs})", LIST(res["t"]))
+            body = body.replace("\0", "Ok (").replace("\1", ")")
+            return self.bindres(f"(mapM (fun {v} =>\n{textwrap.indent(body, '  ')}) {xs})", LIST(res["t"]), g.target.id + "s", k)
+
+        r = self.iter_range(g.iter, cx, with_iter)
+        if r is not None:
+            return r
+        return self.expr(g.iter, cx, with_iter)
 
     def _need(self, t, want, node):
         if t != want:
@@ -372,6 +437,7 @@ class Translator:
 
     # ------------------------------------------------------------------ calls
     def bindres(self, term, t, base, k):
+        self.nbinds += 1
         v = self.fresh(base)
         return f"match {term} with Raise x => Raise x | Ok {v} =>\n{k(v, t)} end"
 
@@ -399,6 +465,13 @@ class Translator:
             raise Unsupported(e)
         if name == "len" and len(e.args) == 1:
             return self.expr(e.args[0], cx, lambda a, ta: k(f"(blen {a})", INT) if ta[0] in ("bytes", "str", "list", "dict") else self._need(ta, BYTES, e))
+        if name == "isinstance":
+            st = self.static_isinstance(e, cx)
+            if st is None:
+                raise Unsupported(e, "isinstance not statically decidable")
+            return k("true" if st else "false", BOOL)
+        if name == "int" and len(e.args) == 1 and not e.keywords:
+            return self.expr(e.args[0], cx, lambda a, ta: k(a, INT) if ta == INT else (self._need(ta, STR, e) or self.bindres(f"(int_of_str {a})", INT, "n", k)))
         if name == "str" and len(e.args) == 1:
             return self.expr(e.args[0], cx, lambda a, ta: self._need(ta, INT, e) or k(f"(str_of_nonneg {a})", STR))
         if name == "math.ceil" and isinstance(e.args[0], ast.BinOp) and isinstance(e.args[0].op, ast.Div):
@@ -455,6 +528,17 @@ class Translator:
                     return self.args(e.args, cx, lambda xs: self.bindres(f"(struct_pack {r} [" + "; ".join(a for a, _ in xs) + "])", BYTES, "t", k))
 
                 return self.expr(recv, cx, packed)
+            if f.attr == "isnumeric" and not e.args and not e.keywords:
+                return self.expr(recv, cx, lambda r, tr: self._need(tr, STR, e) or k(f"(isnumeric {r})", BOOL))
+            if f.attr == "bit_length" and not e.args and not e.keywords:
+                return self.expr(recv, cx, lambda r, tr: self._need(tr, INT, e) or k(f"(bit_length {r})", INT))
+            if f.attr in ("replace", "split") and not e.keywords and len(e.args) == (2 if f.attr == "replace" else 1):
+                if not all(isinstance(x, ast.Constant) and isinstance(x.value, str) and len(x.value.encode()) == 1 for x in e.args):
+                    raise Unsupported(e, "only single ASCII character arguments")
+                cs = " ".join(str(x.value.encode()[0]) for x in e.args)
+                if f.attr == "replace":
+                    return self.expr(recv, cx, lambda r, tr: self._need(tr, STR, e) or k(f"(replace_char {r} {cs})", STR))
+                return self.expr(recv, cx, lambda r, tr: self._need(tr, STR, e) or k(f"(split {r} {cs})", LIST(STR)))
             if f.attr == "strip" and not e.args:
                 return self.expr(recv, cx, lambda r, tr: self._need(tr, STR, e) or k(f"(str_strip {r})", STR))
         if name in self.funcs:
@@ -502,6 +586,7 @@ class Translator:
             nm = ast.unparse(exc).split(".")[-1]
             if nm not in EXN:
                 raise Unsupported(s, "exception class")
+            self.nbinds += 1
             return f"Raise {nm}"
         if isinstance(s, (ast.Assign, ast.AugAssign, ast.AnnAssign)):
             if isinstance(s, ast.Assign):
@@ -534,6 +619,9 @@ class Translator:
                 raise Unsupported(tgt)
 
             return self.expr(val, cx, k)
+        if isinstance(s, ast.If) and self.static_isinstance(s.test, cx) is not None:
+            # a test decided by the static types: only the live branch exists in the model
+            return self.block((s.body if self.static_isinstance(s.test, cx) else s.orelse) + rest, cx, kind, after)
         if isinstance(s, ast.If):
 
             def kc(c, tc):
@@ -591,8 +679,10 @@ class Translator:
 
     def forloop(self, s, rest, cx, kind, after):
         """for x in xs: body  — the body may update self, raise, or continue; nothing else survives the loop."""
-        if kind != "method" or s.orelse:
-            raise Unsupported(s, "loop outside a state-updating method")
+        if s.orelse:
+            raise Unsupported(s, "for-else")
+        if kind != "method":
+            return self.accloop(s, rest, cx, kind, after)
         it = s.iter
         dict_iter = isinstance(it, ast.Call) and isinstance(it.func, ast.Attribute) and it.func.attr == "keys" and not it.args
 
@@ -624,6 +714,65 @@ class Translator:
             )
 
         return self.expr(it.func.value if dict_iter else it, cx, with_iter)
+
+    def accloop(self, s, rest, cx, kind, after):
+        """for x in xs: <updates of locals defined before the loop>  ->  foldM over the tuple of updated locals."""
+        if not isinstance(s.target, ast.Name):
+            raise Unsupported(s, "loop target")
+        accs = []
+        for n in ast.walk(ast.Module(body=s.body, type_ignores=[])):
+            tg = None
+            if isinstance(n, ast.Assign) and len(n.targets) == 1:
+                tg = n.targets[0]
+            elif isinstance(n, (ast.AugAssign, ast.AnnAssign)):
+                tg = n.target
+            elif isinstance(n, (ast.Return, ast.Break, ast.For, ast.While, ast.With, ast.Try)):
+                raise Unsupported(n, "statement inside an accumulating loop")
+            if tg is not None:
+                if not isinstance(tg, ast.Name):
+                    raise Unsupported(n, "loop body may only update locals")
+                if tg.id not in accs:
+                    accs.append(tg.id)
+        if not accs or any(a not in cx.vars for a in accs) or s.target.id in accs:
+            raise Unsupported(s, "loop must update locals that are defined before it")
+        types = [cx.vars[a][1] for a in accs]
+
+        def with_iter(xs, txs):
+            if txs == BYTES:
+                et = INT
+            elif txs[0] == "list":
+                et = txs[1]
+            else:
+                raise Unsupported(s, f"iteration over {txs}")
+            bcx = cx.copy()
+            ins = [self.fresh(a) for a in accs]
+            for a, v, t in zip(accs, ins, types):
+                bcx.vars[a] = (v, t)
+            xv = self.fresh(s.target.id)
+            bcx.vars[s.target.id] = (xv, et)
+
+            def end(c):
+                for a, t in zip(accs, types):
+                    if c.vars[a][1] != t:
+                        raise Unsupported(s, f"type of {a} changes inside the loop")
+                outs = [c.vars[a][0] for a in accs]
+                return "Ok " + (outs[0] if len(outs) == 1 else "(" + ", ".join(outs) + ")")
+
+            body = self.block(s.body, bcx, "pure", after=end)
+            pat_in = ins[0] if len(ins) == 1 else "'(" + ", ".join(ins) + ")"
+            init = cx.vars[accs[0]][0] if len(accs) == 1 else "(" + ", ".join(cx.vars[a][0] for a in accs) + ")"
+            outs = [self.fresh(a) for a in accs]
+            for a, v, t in zip(accs, outs, types):
+                cx.vars[a] = (v, t)
+            pat_out = outs[0] if len(outs) == 1 else "'(" + ", ".join(outs) + ")"
+            self.nbinds += 1
+            return (f"match foldM (fun {pat_in} {xv} =>\n{textwrap.indent(body, '  ')}) {xs} {init} with Raise x => Raise x | Ok {pat_out} =>\n"
+                    f"{self.block(rest, cx, kind, after)} end")
+
+        r = self.iter_range(s.iter, cx, with_iter)
+        if r is not None:
+            return r
+        return self.expr(s.iter, cx, with_iter)
 
     def with_write(self, s, rest, cx, kind, after):
         """`with open(f, "wb") as fh: fh.write(E)` as the last statement: the function's result is E."""
